@@ -2448,3 +2448,190 @@ def check_C19(tier, seed):
     return res.finish(gate)
 
 CHECKS['C19'] = check_C19
+
+# ---------------------------------------------------------------- C20
+API_PRELUDE = ['int:1:1', 'int:2:9', 'nil:3', 'cons:9:3:2', 'int:3:9', 'cons:9:2:2',     # r2 = (3 2)
+               'nil:3', 'str:%s:4' % hx('s'), 'sym:%s:5' % hx('foo'), 'sym:%s:6' % hx(':kw'), 'flt:4004000000000000:7', 'true:8']
+API_DUMP = ['show:1', 'show:2', 'show:3', 'show:4', 'iter:2', 'iter:3', 'eq:2:3', 'equal:2:3', 'boundp:5', 'get:5:9', 'show:9', 'toint:1', 'toflt:1', 'toflt:7', 'tostr:4', 'tobool:3', 'tobool:2', 'toint:4', 'tostr:1']
+
+def api_ops(regs=(1, 2, 3), syms=(5, 6)):
+    ops = []
+    R = list(regs)
+    for a in R:
+        ops += ['push:%d:%d' % (a, b) for b in R if b != a] + ['push:%d:%d' % (a, 1)]
+        ops += ['append:%d:%d' % (a, b) for b in R]
+        ops += ['car:%d:%d' % (a, d) for d in R] + ['cdr:%d:%d' % (a, d) for d in R]
+        ops += ['deep:%d:%d' % (a, d) for d in R if d != a] + ['copy:%d:%d' % (a, d) for d in R if d != a]
+        ops += ['cons:%d:%d:%d' % (a, b, 3) for b in R]
+    for s in syms:
+        for a in R[:2]: ops += ['set:%d:%d' % (s, a), 'setscope:%d:%d' % (s, a)]
+        ops += ['unset:%d' % s, 'get:%d:%d' % (s, 3), 'boundp:%d' % s]
+    ops += ['list3:1:2:3:3', 'list3:2:2:1:2', 'nil:3', 'set:1:2', 'get:1:3', 'unset:4']
+    return sorted(set(ops))
+
+def stack_oracle(ops, outs):
+    """Independent oracle for the symbol operations: a Python stack per symbol register."""
+    stacks = {5: [], 6: None}
+    for o, r in zip(ops, outs):
+        f = o.split(':')
+        if f[0] in ('set', 'setscope', 'unset', 'boundp', 'get') and int(f[1]) in stacks:
+            s = int(f[1]); st = stacks[s]
+            if st is None:        # keyword: constant
+                exp = {'set': 'e', 'setscope': 'e', 'unset': 'e', 'boundp': 'b0', 'get': 'u'}[f[0]]
+            elif f[0] == 'set':
+                if st: st[-1] = f[2]
+                else: st.append(f[2])
+                exp = 'u'
+            elif f[0] == 'setscope': st.append(f[2]); exp = 'u'
+            elif f[0] == 'unset':
+                exp = 'u' if st else 'e'
+                if st: st.pop()
+            elif f[0] == 'boundp': exp = 'b1' if st else 'b0'
+            else: exp = 'u' if st else 'e'
+            if r != exp: return 'symbol op %s: expected %s got %s (stack model)' % (o, exp, r)
+    return None
+
+def check_C20(tier, seed):
+    import itertools
+    res = Result('C20', tier, seed); res.pending = []
+    gate = proof_gate('C20')
+    core.build_model(); core.build_impl()
+    rng = random.Random(seed)
+    OPS = api_ops()
+    seqs = []
+    klen = tier_n(tier, 2, 3)
+    for k in range(0, klen + 1):
+        for t in itertools.product(OPS, repeat=k): seqs.append(list(t))
+    nex = len(seqs)
+    for _ in range(tier_n(tier, 3000, 80000)):
+        seqs.append([rng.choice(OPS + ['show:2', 'show:3', 'iter:2', 'eq:2:3', 'equal:2:3']) for _ in range(rng.choice([4, 6, 10, 20, 30]))])
+    per = 50
+    def mk_cases(seqs):
+        cases = []
+        for i in range(0, len(seqs), per):
+            c = Case('api%d' % i)
+            for s in seqs[i:i + per]:
+                c.lines.append('api ' + ' '.join(API_PRELUDE + s + API_DUMP)); c.nreq += 1
+            cases.append(c)
+        return cases
+    # sequences that build a structure containing itself are outside the sequence model (printing them cannot
+    # terminate): the model recognises them (reachability test before push) and they are dropped, counted
+    pre = mk_cases(seqs)
+    pm = core.run_side(core.TLMODEL, pre, timeout=300)
+    keep = []
+    for ci, c in enumerate(pre):
+        ml = pm.get(c.cid, [])
+        for k, sq in enumerate(seqs[ci * per:(ci + 1) * per]):
+            if k < len(ml) and '|x' not in ml[k] and ' x|' not in ml[k]: keep.append(sq)
+    res.cov['cyclic_sequences_dropped'] = len(seqs) - len(keep)
+    seqs = keep
+    cases = mk_cases(seqs)
+    impl = core.run_side(core.TLIMPL_DEBUG, cases, announce=True, timeout=300)
+    model = core.run_side(core.TLMODEL, cases, timeout=300)
+    # exact attribution: a batch that did not answer every sequence normally is re-run one sequence per process
+    for ci, c in enumerate(cases):
+        il = impl.get(c.cid, [])
+        want = len(seqs[ci * per:(ci + 1) * per])
+        if len(il) != want or any((' API ' not in l) or l.endswith('PANIC') for l in il):
+            singles = []
+            for k, sq in enumerate(seqs[ci * per:(ci + 1) * per]):
+                sc = Case('%s_%d' % (c.cid, k)); sc.lines.append('api ' + ' '.join(API_PRELUDE + sq + API_DUMP)); sc.nreq = 1
+                singles.append(sc)
+            so = core.run_side(core.TLIMPL_DEBUG, singles, announce=True, timeout=120, nproc=4)
+            impl[c.cid] = [(so.get(sc.cid) or ['%s 0 A -1 T ?' % sc.cid])[0] for sc in singles]
+    nv = 0; ncmp = 0; nskip = 0
+    distinct = set()
+    for ci, c in enumerate(cases):
+        il, ml = impl.get(c.cid, []), model.get(c.cid, [])
+        for k in range(len(seqs[ci * per:(ci + 1) * per])):
+            seq = seqs[ci * per + k]
+            full = API_PRELUDE + seq + API_DUMP
+            if k >= len(il):
+                nv += 1
+                if nv <= 8: res.violation('api-abort', {'ops': full, 'why': 'process ended (abort / stack overflow) during this sequence'})
+                break
+            io = il[k].split(' API ', 1)[1] if ' API ' in il[k] else il[k]
+            mo = ml[k].split(' API ', 1)[1] if k < len(ml) and ' API ' in ml[k] else None
+            if io == 'PANIC' or ' A ' in il[k] or ' H ' in il[k]:
+                nv += 1
+                if nv <= 8: res.violation('api-panic', {'ops': full, 'why': 'an API call sequence panicked'})
+                continue
+            iouts = io.split('|')
+            distinct.add(io)
+            why = stack_oracle(full, iouts)
+            # conversions round-trip: prelude values come back exactly
+            tail = iouts[-len(API_DUMP):]
+            if why is None and mo is not None:
+                mouts = mo.split('|')
+                ncmp += 1
+                for j, (a, b) in enumerate(zip(iouts, mouts)):
+                    if b == 'x': nskip += 1; break                      # cyclic structure: outside the model
+                    ca = core.canon_hex(a[1:]) if a[:1] in 'vl' else a
+                    cb = core.canon_hex(b[1:]) if b[:1] in 'vl' else b
+                    if ca != cb:
+                        res.cov['disagreements_checked'] = res.cov.get('disagreements_checked', 0) + 1
+                        if len(res.pending) < 10:
+                            res.pending.append({'ops': full, 'first_difference_at': j, 'op': full[j], 'impl': a if a[:1] not in 'vl' else a[0] + unhx(a[1:]),
+                                                'model': b if b[:1] not in 'vl' else b[0] + unhx(b[1:]), 'why': 'differ', 'correspondence': 'Api.step_op'})
+                        break
+            if why:
+                nv += 1
+                if nv <= 8: res.violation('api-stack', {'ops': full, 'why': why, 'impl': io})
+    # conversions: every i64 / f64 / string / bool value round-trips exactly, wrong types are rejected
+    conv = []
+    ints = [0, 1, -1, 2**63 - 1, -2**63, 42, 2**53 + 1]
+    flts = ['0', '8000000000000000', '3ff0000000000000', '7ff0000000000000', '7ff8000000000000', '1', '4340000000000001', 'c00c000000000000']
+    strs = ['', 'a', '"q"', 'é漢', 'a\\b', 'x\ny']
+    for v in ints: conv.append((['int:%d:1' % v, 'toint:1', 'toflt:1', 'tostr:1', 'tobool:1', 'show:1'], ['u', 'i%d' % v, None, 'e', 'b1', None]))
+    for b in flts: conv.append((['flt:%s:1' % b, 'toflt:1', 'toint:1', 'tostr:1', 'tobool:1'], ['u', 'f%s' % b.lstrip('0') if b.strip('0') else 'f0', 'e', 'e', 'b1']))
+    for s_ in strs: conv.append((['str:%s:1' % hx(s_), 'tostr:1', 'toint:1', 'toflt:1', 'tobool:1'], ['u', 's%s' % hx(s_), 'e', 'e', 'b1']))
+    conv.append((['nil:1', 'tobool:1', 'toint:1', 'tostr:1', 'show:1'], ['u', 'b0', 'e', 'e', 'v' + hx('nil')]))
+    conv.append((['true:1', 'tobool:1', 'toint:1', 'show:1'], ['u', 'b1', 'e', 'v' + hx('t')]))
+    cc = Case('conv')
+    for ops, _ in conv: cc.lines.append('api ' + ' '.join(ops)); cc.nreq += 1
+    co = core.run_side(core.TLIMPL_DEBUG, [cc]).get('conv', [])
+    cm = core.run_side(core.TLMODEL, [cc]).get('conv', [])
+    for (ops, exp), l, lm in zip(conv, co, cm):
+        got = l.split(' API ', 1)[1].split('|')
+        gm = lm.split(' API ', 1)[1].split('|')
+        ncmp += 1
+        for o, e, g_, m_ in zip(ops, exp, got, gm):
+            if e is not None and g_ != e:
+                nv += 1
+                if nv <= 8: res.violation('api-conversion', {'ops': ops, 'op': o, 'expected': e, 'got': g_})
+            if g_ != m_ and len(res.pending) < 10:
+                res.pending.append({'ops': ops, 'op': o, 'impl': g_, 'model': m_, 'why': 'differ', 'correspondence': 'Api.step_op'})
+    # host functions: declared parameter types, optional and rest parameters, each argument evaluated once
+    hitems = []
+    for _ in range(tier_n(tier, 600, 15000)):
+        tid = [0]
+        def tk(e): tid[0] += 1; return '(tick %d %s)' % (tid[0], e)
+        vals = ['1', '2', '-3', '2.5', '"s"', "'sym", 'nil', "'(1 2)", 't', '(+ 1 2)', 'v']
+        f = rng.choice(['host-opt', 'host-conv', 'host-add'])
+        n = rng.choice([0, 1, 2, 3, 4, 5])
+        args = [tk(rng.choice(vals)) for _ in range(n)]
+        if rng.random() < 0.6:
+            if f == 'host-opt': args = [tk(rng.choice(['1', '7', 'v']))] + [tk(rng.choice(['2', 'nil', 'v'])) for _ in range(min(1, max(0, n - 1)))] + args[2:]
+            elif f == 'host-conv': args = [tk(rng.choice(['"a"', '"é"'])), tk(rng.choice(['1', '2.5', 'v'])), tk(rng.choice(['t', 'nil', '5']))][:max(n, 3)]
+            else: args = [tk(rng.choice(['1', 'v'])), tk(rng.choice(['2', '9223372036854775807']))]
+        call = '(%s %s)' % (f, ' '.join(args))
+        route = rng.choice(['direct', 'funcall', 'mapcar'])
+        if route == 'funcall': call = "(funcall '%s %s)" % (f, ' '.join(args))
+        elif route == 'mapcar' and f == 'host-opt': call = "(mapcar 'host-opt (list %s))" % ' '.join(args)
+        hitems.append(('(setq v 5) ' + call, {}))
+    rows = run_exprs(res, hitems, per_case=25, tag='h')
+    res.cov['evaluations'] += ncmp
+    res.cov['skipped_outside_model'] = res.cov.get('skipped_outside_model', 0) + nskip
+    res.cov['distinct_nontrivial'] = len(distinct)
+    res.cov['exhaustive'] = True
+    res.cov['exhaustive_space'] = 'all sequences of up to %d operations out of %d (push, append, car, cdr, deep_copy, handle copy, cons, list!, set, set_scope, unset, get, boundp over 3 object registers and 2 symbols) = %d sequences' % (klen, len(OPS), nex)
+    res.cov['rule'] = ('object / symbol API call sequences interpreted by the harness and by the heap model (objects are cells with identity: aliasing through cdr handles, in-place push, copying append); '
+                       'after every sequence all registers are printed, iterated, compared and converted; exhaustive short sequences and random ones up to 30 operations; oracle: Python stack model for '
+                       'set / set_scope / unset / get / boundp incl. a constant symbol, exact round trip of i64 / f64 (bit patterns incl. NaN, inf, -0.0) / String / bool conversions and rejection of wrong types; '
+                       'host functions with i64 / Option<i64> / rest / String / f64 parameters called with ticked arguments directly, via funcall and mapcar; correspondence with the model')
+    res.cov['samples'] = [' '.join(API_PRELUDE + seqs[len(seqs) // 2] + API_DUMP)]
+    for d in res.pending:
+        res.violation('disagreement', d, no_input=not oracle_confirms(d))
+    return res.finish(gate)
+
+CHECKS['C20'] = check_C20
